@@ -91,7 +91,8 @@ def _child(site_desc, opts, conc, seed, workdir, logpath, kill, run_index=0):
     try:
         res, _ = cc.run_real(site, opts, seed, conc, workdir=workdir, db=os.path.join(workdir, 'crawl.db'),
                              event_sink=sink, on_request=on_request, start_urls=site.start_urls() if site.inputs else None,
-                             run_index=run_index, on_app=on_app if kill and kill[0] == 'sigterm' else None)
+                             run_index=run_index, on_app=on_app if kill and kill[0] == 'sigterm' else None,
+                             max_steps=400000)      # (a crawl of these sites takes a few ten thousand loop steps: one that goes on and on is cut and reported)
         os.write(fd, (json.dumps({'op': 'exit', 'exit_code': res.exit_code, 'hung': res.hung, 'error': res.error,
                                   'counters': counters}) + '\n').encode())
         rc = 0
